@@ -542,4 +542,174 @@ theorem staged_eval (ctx : Ctx) (doc : Nat) (t : MT) :
     (evalCosts ctx doc 4 0 (t.prepare doc) []).2.1 = some ((t.prepare doc).val ctx doc) :=
   evalCosts_spec ctx doc 3 0 _ [] (MT.prepare_good ctx doc t) rfl
 
+
+/-! ## nextDoc never skips a matching document (and → max, or → min, not → 0) -/
+
+theorem firstSetAux_sound (bits : List Bool) : ∀ (i start d : Nat), start ≤ d → i ≤ d →
+    d < firstSetAux bits i start → bits.getD (d - i) false = false := by
+  induction bits with
+  | nil => intros; simp
+  | cons b rest ih =>
+    intro i start d hs hi hd
+    simp only [firstSetAux] at hd
+    by_cases hc : start ≤ i ∧ b = true
+    · simp only [hc, and_self, if_true] at hd; omega
+    · simp only [hc, if_false] at hd
+      by_cases hdi : d = i
+      · subst hdi
+        simp only [Nat.sub_self, List.getD_cons_zero]
+        cases b
+        · rfl
+        · exact absurd ⟨hs, rfl⟩ hc
+      · have := ih (i + 1) start d hs (by omega) hd
+        have e : d - i = (d - (i + 1)) + 1 := by omega
+        rw [e, List.getD_cons_succ]; exact this
+
+theorem firstSet_sound (bits : List Bool) (start d : Nat) (hs : start ≤ d) (hd : d < firstSet bits start) :
+    bits.getD d false = false := by
+  have := firstSetAux_sound bits 0 start d hs (Nat.zero_le _) hd
+  simpa using this
+
+
+/-- what `nextDoc` of a substring leaf must guarantee: no document in `[L, nextDoc)` satisfies the leaf -/
+def SubSound (subSem : Sub → Nat → Bool) (L : Nat) (s : Sub) : Prop :=
+  match s.it with
+  | Option.none => ∀ d, L ≤ d → subSem s d = false
+  | some it => ∀ d, L ≤ d → d < it.nextDoc.1 → subSem s d = false
+
+mutual
+/-- static truth of a tree on document `d`; parameters: the truth of substring leaves and the extra conjunct of the
+    same-line node -/
+def MT.sem (subSem : Sub → Nat → Bool) (lineSem : MTs → Nat → Bool) (d : Nat) : MT → Bool
+  | .doc _ bits _ _ => bits.getD d false
+  | .brute _ _ => true
+  | .none => false
+  | .re _ _ bits _ _ _ _ => bits.getD d false
+  | .sub s => subSem s d
+  | .and _ ch => MTs.semAll subSem lineSem d ch
+  | .andLine _ _ ch => MTs.semAll subSem lineSem d ch && lineSem ch d
+  | .or _ ch => MTs.semAny subSem lineSem d ch
+  | .not _ c => !(c.sem subSem lineSem d)
+  | .fileName _ c => c.sem subSem lineSem d
+  | .boost _ c => c.sem subSem lineSem d
+  | .noVisit c => c.sem subSem lineSem d
+def MTs.semAll (subSem : Sub → Nat → Bool) (lineSem : MTs → Nat → Bool) (d : Nat) : MTs → Bool
+  | .nil => true
+  | .cons h t => h.sem subSem lineSem d && MTs.semAll subSem lineSem d t
+def MTs.semAny (subSem : Sub → Nat → Bool) (lineSem : MTs → Nat → Bool) (d : Nat) : MTs → Bool
+  | .nil => false
+  | .cons h t => h.sem subSem lineSem d || MTs.semAny subSem lineSem d t
+end
+
+mutual
+/-- the iteration state of the leaves is consistent with "every document below `L` has been dealt with" -/
+def MT.Cur (subSem : Sub → Nat → Bool) (L : Nat) : MT → Prop
+  | .doc _ _ fd id => fd = true → id < L
+  | .brute fd id => fd = true → id < L
+  | .none => True
+  | .re _ _ _ fd id _ _ => fd = true → id < L
+  | .sub s => SubSound subSem L s
+  | .and _ ch => MTs.CurAll subSem L ch
+  | .andLine _ _ ch => MTs.CurAll subSem L ch
+  | .or _ ch => MTs.CurAll subSem L ch
+  | .not _ _ => True
+  | .fileName _ c => c.Cur subSem L
+  | .boost _ c => c.Cur subSem L
+  | .noVisit c => c.Cur subSem L
+def MTs.CurAll (subSem : Sub → Nat → Bool) (L : Nat) : MTs → Prop
+  | .nil => True
+  | .cons h t => h.Cur subSem L ∧ MTs.CurAll subSem L t
+end
+
+mutual
+theorem MT.nextDoc_sound (subSem : Sub → Nat → Bool) (lineSem : MTs → Nat → Bool) (L : Nat) :
+    (t : MT) → t.Cur subSem L → ∀ d, L ≤ d → d < t.nextDoc.1 → t.sem subSem lineSem d = false
+  | .doc br bits fd id, h, d, hL, hd => by
+    simp only [MT.nextDoc] at hd
+    simp only [MT.sem]
+    refine firstSet_sound bits _ d ?_ hd
+    by_cases hf : fd = true
+    · have := h hf; simp only [hf, if_true]; omega
+    · simp [hf]
+  | .brute fd id, h, d, hL, hd => by
+    simp only [MT.nextDoc] at hd
+    by_cases hf : fd = true
+    · have := h hf; simp only [hf, if_true] at hd; omega
+    · simp [hf] at hd
+  | .none, _, d, _, _ => by simp [MT.sem]
+  | .re w f bits fd id ev fo, h, d, hL, hd => by
+    simp only [MT.nextDoc] at hd
+    by_cases hf : fd = true
+    · have := h hf; simp only [hf, if_true] at hd; omega
+    · simp [hf] at hd
+  | .sub s, h, d, hL, hd => by
+    simp only [MT.sem]
+    simp only [MT.Cur, SubSound] at h
+    simp only [MT.nextDoc] at hd
+    cases hit : s.it with
+    | none => rw [hit] at h; exact h d hL
+    | some it =>
+      rw [hit] at h
+      simp only [hit] at hd
+      exact h d hL hd
+  | .and k ch, h, d, hL, hd => by
+    simp only [MT.nextDoc] at hd
+    simp only [MT.sem]
+    rcases MTs.nextDocMax_sound subSem lineSem L ch 0 h d hL hd with h1 | h1
+    · omega
+    · exact h1
+  | .andLine k kin ch, h, d, hL, hd => by
+    simp only [MT.nextDoc] at hd
+    simp only [MT.sem]
+    rcases MTs.nextDocMax_sound subSem lineSem L ch 0 h d hL hd with h1 | h1
+    · omega
+    · simp [h1]
+  | .or k ch, h, d, hL, hd => by
+    simp only [MT.nextDoc] at hd
+    simp only [MT.sem]
+    exact (MTs.nextDocMin_sound subSem lineSem L ch maxU32 h d hL hd).2
+  | .not k c, _, d, _, hd => by simp [MT.nextDoc] at hd
+  | .fileName k c, h, d, hL, hd => by
+    simp only [MT.nextDoc] at hd
+    simp only [MT.sem]
+    exact MT.nextDoc_sound subSem lineSem L c h d hL hd
+  | .boost k c, h, d, hL, hd => by
+    simp only [MT.nextDoc] at hd
+    simp only [MT.sem]
+    exact MT.nextDoc_sound subSem lineSem L c h d hL hd
+  | .noVisit c, h, d, hL, hd => by
+    simp only [MT.nextDoc] at hd
+    simp only [MT.sem]
+    exact MT.nextDoc_sound subSem lineSem L c h d hL hd
+theorem MTs.nextDocMax_sound (subSem : Sub → Nat → Bool) (lineSem : MTs → Nat → Bool) (L : Nat) :
+    (ch : MTs) → (acc : Nat) → MTs.CurAll subSem L ch → ∀ d, L ≤ d → d < (MTs.nextDocMax ch acc).1 →
+      d < acc ∨ MTs.semAll subSem lineSem d ch = false
+  | .nil, acc, _, d, _, hd => by
+    simp only [MTs.nextDocMax] at hd; exact Or.inl hd
+  | .cons h t, acc, hc, d, hL, hd => by
+    simp only [MTs.nextDocMax] at hd
+    rcases MTs.nextDocMax_sound subSem lineSem L t _ hc.2 d hL hd with h1 | h1
+    · by_cases hm : h.nextDoc.1 > acc
+      · simp only [hm, if_true] at h1
+        right
+        simp only [MTs.semAll, MT.nextDoc_sound subSem lineSem L h hc.1 d hL h1, Bool.false_and]
+      · simp only [hm, if_false] at h1; exact Or.inl h1
+    · right; simp [MTs.semAll, h1]
+theorem MTs.nextDocMin_sound (subSem : Sub → Nat → Bool) (lineSem : MTs → Nat → Bool) (L : Nat) :
+    (ch : MTs) → (acc : Nat) → MTs.CurAll subSem L ch → ∀ d, L ≤ d → d < (MTs.nextDocMin ch acc).1 →
+      d < acc ∧ MTs.semAny subSem lineSem d ch = false
+  | .nil, acc, _, d, _, hd => by
+    simp only [MTs.nextDocMin] at hd; exact ⟨hd, rfl⟩
+  | .cons h t, acc, hc, d, hL, hd => by
+    simp only [MTs.nextDocMin] at hd
+    obtain ⟨h1, h2⟩ := MTs.nextDocMin_sound subSem lineSem L t _ hc.2 d hL hd
+    by_cases hm : h.nextDoc.1 < acc
+    · simp only [hm, if_true] at h1
+      refine ⟨by omega, ?_⟩
+      simp only [MTs.semAny, MT.nextDoc_sound subSem lineSem L h hc.1 d hL h1, h2, Bool.or_self]
+    · simp only [hm, if_false] at h1
+      refine ⟨h1, ?_⟩
+      simp only [MTs.semAny, MT.nextDoc_sound subSem lineSem L h hc.1 d hL (by omega), h2, Bool.or_self]
+end
+
 end ZoektModel.C01
